@@ -486,6 +486,14 @@ impl Dag {
 
 pub fn gen_body(rng: &mut Rng, p: &DagParams) -> Vec<Op> {
     let mut b = vec![];
+    // quiet commands write no fact at all (segments whose tail / head wrote nothing exercise the
+    // storage's "no fact update" shortcuts)
+    if rng.chance(15, 100) {
+        if rng.chance(1, 2) {
+            b.push(Op::Emit(rng.below(1000)));
+        }
+        return b;
+    }
     if rng.chance(p.check_pct, 100) {
         let k = rng.below(p.keys);
         b.push(if rng.chance(1, 2) { Op::ReqAbsent(k) } else { Op::ReqPresent(k) });
@@ -503,6 +511,19 @@ pub fn gen_body(rng: &mut Rng, p: &DagParams) -> Vec<Op> {
     }
     if rng.chance(30, 100) {
         b.push(Op::Emit(rng.below(1000)));
+    }
+    // write-then-check / write-then-fail: the rule has already written when it rejects (the
+    // runtime must revert at origin; inside a braid the partial writes stay, as in the model)
+    if p.check_pct > 0 && rng.chance(p.check_pct, 200) {
+        let k = rng.below(p.keys);
+        b.push(match rng.below(3) {
+            0 => Op::Fail,
+            1 => Op::ReqAbsent(k),
+            _ => Op::ReqPresent(k),
+        });
+        if rng.chance(1, 2) {
+            b.push(Op::Set(rng.below(p.keys), rng.below(100)));
+        }
     }
     b
 }
